@@ -55,4 +55,4 @@ def run(ck: Check, spec=None, keys=KEYS, what="connection LTS != implementation 
 
 
 def default_spec(obs, lines, info):
-    return connlts.spec_c05(obs, info)
+    return connlts.spec_c05(obs, info, lines)
